@@ -193,6 +193,37 @@ func c08Config(rep *verifkit.Report, rng *rand.Rand, up *sysUpstream, ci int) {
 	var qs []*c08Query
 	// In the middle of the run anonymisation is switched (or re-set) at run
 	// time, through the current or the deprecated configuration endpoint.
+	warmCounted := 0
+	if ci%3 == 1 {
+		// A long history first: more encrypted requests with a ClientID than
+		// any per-request table of the server is likely to hold (1024 and
+		// 2048 are the usual bounds), so that the flagged ClientID clients
+		// below are looked up by a server that has been running for a while.
+		nWarm := verifkit.Pick(1100, 2200)
+		tr := &http.Transport{MaxIdleConnsPerHost: 4}
+		hc := &http.Client{Transport: tr, Timeout: 8 * time.Second}
+		okWarm := 0
+		for k := 0; k < nWarm; k++ {
+			m := &dns.Msg{}
+			m.SetQuestion(fmt.Sprintf("warm%d-%s.warmup.verif.example.", k, tag), dns.TypeA)
+			m.Id = 0
+			wire, _ := m.Pack()
+			resp, gerr := hc.Get(fmt.Sprintf("http://127.0.0.1:%d/dns-query/warm-cid-%d?dns=%s", in.WebPort, k%7, base64.RawURLEncoding.EncodeToString(wire)))
+			if gerr == nil {
+				_, _ = io.Copy(io.Discard, resp.Body)
+				_ = resp.Body.Close()
+				if resp.StatusCode == 200 {
+					okWarm++
+				}
+			}
+		}
+		tr.CloseIdleConnections()
+		warmCounted = okWarm
+		rep.EventN("long_history_encrypted_requests_with_clientid", okWarm)
+		if okWarm >= nWarm*9/10 {
+			rep.Class("config_after_long_history_of_clientid_requests")
+		}
+	}
 	anonNow := anonymize
 	anonAfter := rng.Intn(3) != 0
 	switchVia := []string{"PUT /control/querylog/config/update", "POST /control/querylog_config"}[rng.Intn(2)]
@@ -447,7 +478,7 @@ func c08Config(rep *verifkit.Report, rng *rand.Rand, up *sysUpstream, ci int) {
 	statsDB, _ := os.ReadFile(filepath.Join(in.Dir, "data", "stats.db"))
 	statsDBLower := bytes.ToLower(statsDB)
 
-	counted := rootAnswered // the root name is never on the statistics ignore list
+	counted := rootAnswered + warmCounted // the root name is never on the statistics ignore list; the warm-up names are on none
 	if rootAnswered > 0 {
 		inAPI := strings.Contains(apiLog, `"name":"."`)
 		inFile := bytes.Contains(fileLog, []byte(`"QH":"."`))
